@@ -2922,11 +2922,12 @@ func fileFromReader(name string, reader io.Reader) (*File, error) {
 		Header: make(map[string][]string),
 		Writer: func(writer io.Writer) (int64, error) {
 			readBytes, copyErr := io.Copy(writer, byteReader)
+			// Always rewind, otherwise a render after a failed one would only emit the rest
+			_, seekErr := byteReader.Seek(0, io.SeekStart)
 			if copyErr != nil {
 				return readBytes, copyErr
 			}
-			_, copyErr = byteReader.Seek(0, io.SeekStart)
-			return readBytes, copyErr
+			return readBytes, seekErr
 		},
 	}, nil
 }
@@ -2952,11 +2953,12 @@ func fileFromReadSeeker(name string, reader io.ReadSeeker) *File {
 		Header: make(map[string][]string),
 		Writer: func(writer io.Writer) (int64, error) {
 			readBytes, err := io.Copy(writer, reader)
+			// Always rewind, otherwise a render after a failed one would only emit the rest
+			_, seekErr := reader.Seek(0, io.SeekStart)
 			if err != nil {
 				return readBytes, err
 			}
-			_, err = reader.Seek(0, io.SeekStart)
-			return readBytes, err
+			return readBytes, seekErr
 		},
 	}
 }
